@@ -426,6 +426,7 @@ pub fn op_source(op: &ClientOp) -> String {
         ClientOp::Vars { session } => format!("vars[{session}]"),
         ClientOp::Noise(n) => format!("noise {:?}", n),
         ClientOp::WaitRun { nth } => format!("wait for run #{nth}"),
+        ClientOp::Reload { session, path, src } => format!("repl[{session}] edit module %{} := {src} ; reload", path.join(".")),
     }
 }
 
